@@ -6,7 +6,7 @@ import numpy as np
 
 from .. import core, coqfmt, e2e
 from ..core import c_nat, c_list
-from .c01 import exact_cost, exact_dp
+from .c01 import exact_cost, exact_dp, int_dp
 
 ANCHORS = {"data_preparation.py": ["label_switching_cost_template", "stack_training_data_multiple_series"],
            "front_end.py": ["ticc_joint_labels"]}
@@ -208,6 +208,33 @@ def run(ctx):
                     ctx.violation("monitor", "labelling with the masked switching cost is not the per-series optimum (%s vs %s)" % (float(got), float(want)), {"case": case, "labels": labels})
                 if Fraction(float(cost)) != got:
                     ctx.violation("monitor", "reported cost %r is not assignment cost + within-series switching cost %s of the returned labels" % (float(cost), float(got)), {"case": case, "labels": labels})
+        # the same with hundreds of clusters (ids beyond one byte): integer tables, optimum by an exact int64 recursion per series
+        for i in range(ctx.budget(6, 30)):
+            ns = int(rng.integers(2, 4)); K = int(rng.choice([257, 300, 400, 520]))
+            lens = [int(rng.integers(2, 6)) for _ in range(ns)]
+            T = sum(lens)
+            tab = rng.integers(0, 50, size=(T, K)).astype(float)
+            # make the high-numbered clusters attractive so that optimal paths live there
+            tab[:, 256:] -= 30.0
+            beta = float(rng.integers(1, 40))
+            mask = dp.label_switching_cost_template(list(lens))
+            case = {"lens": lens, "beta": beta, "K": K, "table": "integers in [0,50), columns >= 256 lowered by 30, seed %d case %d" % (ctx.seed, i)}
+            ctx.count("masked-kernel-many-clusters")
+            with ctx.guard("assign_point_cluster_labels(beta * mask), hundreds of clusters", case):
+                labels, cost = kernel(label_assignment_cost=tab, label_switching_cost=beta * mask)
+                labels = [int(x) for x in labels]
+                want = Fraction(0)
+                pos = 0
+                for n in lens:
+                    want += int_dp(tab[pos:pos + n], [beta] * n)
+                    pos += n
+                within = [0.0 if m == 0 else beta for m in mask]
+                got = exact_cost(tab.tolist(), within, labels)
+                if got != want:
+                    ctx.violation("monitor", "with %d clusters the labelling under the masked switching cost is not the per-series optimum (%s vs %s)" % (K, float(got), float(want)),
+                                  {"case": case, "labels": labels})
+                if Fraction(float(cost)) != got:
+                    ctx.violation("monitor", "with %d clusters the reported cost %r is not the cost %s of the returned labels" % (K, float(cost), float(got)), {"case": case, "labels": labels})
         # (c) traced joint runs
         runs = e2e.cached_runs(ctx, joint_cfgs(ctx.seed, ctx.thorough), "c07") + \
             [r for r in e2e.cached_runs(ctx, e2e.standard_grid(ctx.seed, ctx.thorough), "std") if r["cfg"].get("joint")]
